@@ -100,6 +100,7 @@ class State:
         self.names = {s: None for s in SOURCES}
         self.have0 = {s: False for s in SOURCES}
         self.maybe0 = {s: False for s in SOURCES}
+        self.held = []       # (source, message object the application still holds, its identity when it was returned): the last few
 
 
 def run_config(args):
@@ -117,6 +118,17 @@ def run_config(args):
                 "case": {"map_on": map_on, "mode": mode, "mlist": list(mlist), "claim_filtered": claim_filtered}}
 
     def step(s, ev):
+        out = step_inner(s, ev)
+        if out:
+            return out
+        # messages returned earlier are the application's: a later claim must not change the identity they carry
+        for src0, obj, ident in s.held:
+            if got_identity(obj.source_iso_name) != ident:
+                return [viol("returned_message_changed_later", ev, f"a message returned earlier from source {src0} carried {ident}; after this event the same object carries "
+                                                                    f"{got_identity(obj.source_iso_name)}", {"mechanism": "identity_object_shared"})]
+        return []
+
+    def step_inner(s, ev):
         src = int(ev[-1])
         try:
             if isinstance(pk[ev], tuple):
@@ -125,6 +137,8 @@ def run_config(args):
                 m = s.dec.decode_tcp(pk[ev])
         except Exception as ex:  # noqa: BLE001
             return [viol("decoder_raises", ev, f"{type(ex).__name__}: {ex}")]
+        if m is not None:
+            s.held = (s.held + [(src, m, got_identity(m.source_iso_name))])[-4:]
         other = [x for x in SOURCES if x != src][0]
         if ev.startswith("claim_"):
             name = NAMES[ev[6]]
